@@ -136,6 +136,9 @@ def render(model):
         out.append("/**\n * FFI-safe box\n */\ntypedef struct CBox_c_void {\n    void *instance;\n    void (*drop_fn)(void*);\n} CBox_c_void;\n\n")
     if any(x == "Arc" for _, x in pairs):
         out.append("/**\n * FFI-Safe Arc\n */\ntypedef struct CArc_c_void {\n    const void *instance;\n    const void *(*clone_fn)(const void*);\n    void (*drop_fn)(const void*);\n} CArc_c_void;\n\n")
+    if foreign and any(x == "Arc" for _, x in pairs):
+        # a user structure that holds a context by value: cbindgen puts it after the context type it needs
+        out.append("/**\n * A user structure that keeps a context.\n */\ntypedef struct UserKeeper {\n    struct CArc_c_void keep;\n    int32_t n;\n} UserKeeper;\n\n")
     for cb in callback_kinds(model):
         mangled, cty = CB_ELEM[cb]
         out.append("/**\n * FFI compatible callback.\n */\ntypedef struct Callback_c_void__%s {\n    void *context;\n    bool (*func)(void*, %s);\n} Callback_c_void__%s;\n\n" % (mangled, cty, mangled))
